@@ -82,8 +82,8 @@ func buildStream(c *mutCase) ([]byte, int, error) {
 		b, err := hex.DecodeString(c.StreamHex)
 		return b, c.FrameLen, err
 	}
-	if c.Entry == "sasl-raw" || c.Entry == "transport-sasl0" && c.Key < 0 {
-		return nil, 0, fmt.Errorf("raw sasl cases carry their bytes")
+	if c.Key < 0 {
+		return nil, 0, fmt.Errorf("raw sasl and consumer-protocol cases carry their bytes")
 	}
 	a := refcodec.Lookup(c.Key)
 	if a == nil {
